@@ -30,8 +30,9 @@ fn check_nevra(n: &str, e: &str, v: &str, r: &str, a: &str, prio: u64, acc: &mut
         let nvra = val.nvra();
         let back = Nevra::parse(&text);
         let back_vals = (back.name().to_string(), back.epoch().to_string(), back.version().to_string(), back.release().to_string(), back.arch().to_string());
-        let eq = back == val;
         let nb = Nevra::parse(&norm);
+        // "an equal value": equal under ==, and neither side ordered before the other — for the plain and the normalised text
+        let eq = back == val && back.cmp(&val) == std::cmp::Ordering::Equal && val.cmp(&back) == std::cmp::Ordering::Equal && nb.cmp(&val) == std::cmp::Ordering::Equal && val.cmp(&nb) == std::cmp::Ordering::Equal && nb == val;
         let nb_vals = (nb.name().to_string(), nb.epoch().to_string(), nb.version().to_string(), nb.release().to_string(), nb.arch().to_string());
         let pv = Nevra::parse_values(&text);
         let pv = (pv.0.to_string(), pv.1.to_string(), pv.2.to_string(), pv.3.to_string(), pv.4.to_string());
@@ -75,8 +76,9 @@ fn check_evr(e: &str, v: &str, r: &str, prio: u64, acc: &mut Acc) {
         let norm = val.as_normalized_form();
         let back = Evr::parse(&text);
         let bv = (back.epoch().to_string(), back.version().to_string(), back.release().to_string());
-        let eq = back == val;
         let nb = Evr::parse(&norm);
+        let e_ = std::cmp::Ordering::Equal;
+        let eq = back == val && back.cmp(&val) == e_ && val.cmp(&back) == e_ && nb == val && nb.cmp(&val) == e_ && val.cmp(&nb) == e_;
         let nbv = (nb.epoch().to_string(), nb.version().to_string(), nb.release().to_string());
         (text, norm, bv, eq, nbv)
     });
@@ -121,7 +123,7 @@ pub fn run(ctx: &Ctx) -> i32 {
     let epochs = ["", "0", "1", "12", "00", "01", "2147483647", "2147483648", "4294967295"];
     let vers = strings(&["1", "a", "."], 1, 2);
     let rels = strings(&["1", "a", "."], 1, 2);
-    let archs = ["x", "noarch", "x86_64"];
+    let archs = ["x", "noarch", "x86_64", ""]; // "" as in gpg-pubkey packages
     let rad = [names.len() as u64, epochs.len() as u64, vers.len() as u64, rels.len() as u64, archs.len() as u64];
     let n = vlib::par::product(&rad);
     let a = merge(par_fold(n, Acc::new, |i, acc| {
